@@ -1,6 +1,7 @@
 package main
 
 import (
+	"strconv"
 	"fmt"
 	"go/ast"
 	"go/token"
@@ -183,6 +184,41 @@ func (e *Engine) load(repo string, verifDir string, pkgs []string) error {
 
 // findFunc locates a function declaration by "Name" or "Recv.Name" in a package.
 func (e *Engine) findFunc(pkg *packages.Package, key string) *ast.FuncDecl {
+	// F$litN: the N-th function literal (in source order) inside function F, verified as a function of its
+	// own; variables it captures are treated as additional parameters
+	if k := strings.Index(key, "$lit"); k > 0 {
+		outer := e.findFunc(pkg, key[:k])
+		n, err := strconv.Atoi(key[k+4:])
+		if outer == nil || err != nil {
+			return nil
+		}
+		cnt := 0
+		var found *ast.FuncLit
+		ast.Inspect(outer.Body, func(nd ast.Node) bool {
+			if l, ok := nd.(*ast.FuncLit); ok {
+				cnt++
+				if cnt == n && found == nil {
+					found = l
+				}
+			}
+			return true
+		})
+		if found == nil {
+			return nil
+		}
+		sig, _ := pkg.TypesInfo.TypeOf(found).(*types.Signature)
+		if sig == nil {
+			return nil
+		}
+		decl := &ast.FuncDecl{Name: &ast.Ident{NamePos: found.Pos(), Name: key}, Type: found.Type, Body: found.Body}
+		if e.litFuncs == nil {
+			e.litFuncs = map[*ast.FuncDecl]*types.Func{}
+			e.litNodes = map[*ast.FuncDecl]*ast.FuncLit{}
+		}
+		e.litFuncs[decl] = types.NewFunc(found.Pos(), pkg.Types, key, sig)
+		e.litNodes[decl] = found
+		return decl
+	}
 	for _, f := range pkg.Syntax {
 		for _, d := range f.Decls {
 			fd, ok := d.(*ast.FuncDecl)
